@@ -35,7 +35,26 @@ N, V = vm.NUMBERS, vm.VALUES
 ENTRY = ['add', 'sub', 'mul', 'div', 'pow', 'intdiv', 'mod_', 'to_single', 'to_double', 'Values.from_value', 'Values.from_repr']
 
 
+def _shared(ctx, rep):
+    """Two structural necessary conditions of the error bound that other modules own: (C03) the rounding step of
+    _normalise keeps the mantissa below its limit; (C05) operands of + - * / are only widened, never narrowed."""
+    from . import c03, c05
+    for mod, prefixes, what in ((c03, ('normalise.',), 'rounding keeps the mantissa in [mask, 2*mask)'),
+                                (c05, ('promotion.',), 'operands are promoted to the wider type, never narrowed')):
+        sub = type(rep)(mod.PROP)
+        mod.check(ctx, sub)
+        n = 0
+        for r, v in sub.by_rule.items():
+            if r.startswith(prefixes):
+                n += v[0]
+        for f in sub.findings:
+            if f.rule.startswith(prefixes):
+                rep.ob('shared.' + f.rule, f.construct, False, f.detail, f.where)
+        rep.ob('shared.%s' % mod.PROP, '%s (%d obligations of %s)' % (what, n, mod.PROP), n > 0 and not sub.errors, '; '.join(sub.errors))
+
+
 def check(ctx, rep):
+    _shared(ctx, rep)
     # idiv
     idiv = ctx.fn(N + ':Float.idiv')
     fl = ctx.flow(idiv)
